@@ -97,6 +97,8 @@ BinInt(op, t, a, b) ==
                        ELSE Res("ok", a \div Pow2(b))
       [] op = "lt" -> Res("ok", B(a < b))
       [] op = "gt" -> Res("ok", B(a > b))
+      [] op = "le" -> Res("ok", B(a <= b))       \* surface forms a <= b, a >= b: operands evaluated once
+      [] op = "ge" -> Res("ok", B(a >= b))
 
 UnInt(op, t, a) ==
     IF op = "neg" THEN CheckedT(t, -a)
@@ -168,6 +170,15 @@ Update(prog, v, acc, idxs, new) ==
          THEN [v EXCEPT ![a.i + 1] = Update(prog, v[a.i + 1], Tail(acc), idxs, new)]
          ELSE LET j == IndexOfField(prog.structs[a.cty.name], a.f)
               IN  [v EXCEPT ![j] = Update(prog, v[j], Tail(acc), idxs, new)]
+
+(* the value of the place reached along an accessor path *)
+RECURSIVE ReadPlace(_, _, _, _)
+ReadPlace(prog, v, acc, idxs) ==
+    IF acc = <<>> THEN v
+    ELSE LET a == Head(acc) IN
+         IF a.k = "idx" THEN ReadPlace(prog, v[Head(idxs) + 1], Tail(acc), Tail(idxs))
+         ELSE IF a.k = "tup" THEN ReadPlace(prog, v[a.i + 1], Tail(acc), idxs)
+         ELSE ReadPlace(prog, v[IndexOfField(prog.structs[a.cty.name], a.f)], Tail(acc), idxs)
 
 (* which index accessors are out of bounds, walking the path *)
 RECURSIVE OobSet(_, _, _, _)
@@ -262,6 +273,43 @@ ExecStmt(prog, s, st) ==
                      IN  IF g.st.panic \cup oobPanics # {}
                          THEN R([g.st EXCEPT !.panic = g.st.panic \cup oobPanics], Unit)
                          ELSE R(Assign(g.st, s.n, Update(prog, cur.v, s.acc, idxs, g.vs[Len(g.vs)])), Unit)
+      [] s.k = "opassign" ->
+            (* surface form  place op= e : index expressions and e are evaluated exactly once (their mutual order *)
+            (* is free, as for an assignment), then place = place op e                                            *)
+            LET idxAccs == SelectSeq(s.acc, LAMBDA a : a.k = "idx")
+                members == [i \in 1..Len(idxAccs) |-> idxAccs[i].i] \o <<s.e>>
+                g == IF Len(idxAccs) = 0
+                     THEN LET r == Eval(prog, s.e, st) IN [st |-> r.st, vs |-> <<r.v>>, oks |-> <<r.st.panic = {}>>]
+                     ELSE EvalGroup(prog, members, st, [vs |-> <<>>, oks |-> <<>>], {})
+                cur == Lookup(g.st, s.n)
+                T == s.pty
+            IN  IF g.st.oom \/ ~cur.found THEN R(Oom(g.st), Unit)
+                ELSE LET idxs == SubSeq(g.vs, 1, Len(idxAccs))
+                         idxOk == \A i \in 1..Len(idxAccs) : g.oks[i]
+                         oob == IF idxOk THEN OobSet(prog, cur.v, s.acc, idxs) ELSE {}
+                         oobPanics == IF oob = {} THEN {}
+                                      ELSE {[r |-> REASON_OOB, m |-> x] : x \in oob \cup {s.m}}
+                     IN  IF g.st.panic \cup oobPanics # {}
+                         THEN R([g.st EXCEPT !.panic = g.st.panic \cup oobPanics], Unit)
+                         ELSE LET old == ReadPlace(prog, cur.v, s.acc, idxs)
+                                  (* whether the place is read before or after e is evaluated is not fixed (Rust reads it *)
+                                  (* after e for primitives, the rewritten form place = place op e before): if e or an   *)
+                                  (* index expression writes the place itself, the statement is outside the model        *)
+                                  before == Lookup(st, s.n)
+                                  oldBefore == IF before.found /\ OobSet(prog, before.v, s.acc, idxs) = {}
+                                               THEN ReadPlace(prog, before.v, s.acc, idxs) ELSE old
+                                  val == g.vs[Len(g.vs)]
+                              IN  IF oldBefore # old THEN R(Oom(g.st), Unit)
+                                  ELSE IF T.k = "bool"
+                                  THEN (IF s.op \in {"and", "or", "xor"}
+                                        THEN R(Assign(g.st, s.n, Update(prog, cur.v, s.acc, idxs, BoolBin(s.op, old, val))), Unit)
+                                        ELSE R(Oom(g.st), Unit))
+                                  ELSE IF T.k # "int" \/ ~KnownInt(T.t) THEN R(Oom(g.st), Unit)
+                                  ELSE LET o == BinInt(s.op, T.t, old, val)
+                                       IN  IF o.tag = "ok" THEN R(Assign(g.st, s.n, Update(prog, cur.v, s.acc, idxs, o.v)), Unit)
+                                           ELSE IF o.tag = "ovf" THEN R(PanicAt(g.st, REASON_OVERFLOW, {s.m}), Unit)
+                                           ELSE IF o.tag = "div" THEN R(PanicAt(g.st, REASON_DIVZERO, {s.m}), Unit)
+                                           ELSE R(Oom(g.st), Unit)
       [] s.k = "for" ->
             LET r == Eval(prog, s.e, st)
             IN  IF Dead(r.st) THEN R(r.st, Unit) ELSE R(ExecFor(prog, s, r.v, 1, r.st), Unit)
